@@ -382,6 +382,9 @@ string Subprocess::communicate(
     close(this->stdin_write_fd);
     this->stdin_write_fd = -1;
   } else {
+    // Writing must not block: if the child is itself blocked writing to its
+    // stdout, we have to keep reading that while its stdin pipe is full
+    make_fd_nonblocking(this->stdin_write_fd);
     p.add(this->stdin_write_fd, POLLOUT);
   }
   p.add(this->stdout_read_fd, POLLIN);
@@ -429,7 +432,9 @@ string Subprocess::communicate(
           bytes_remaining);
 
       bool should_close_stdin = false;
-      if (bytes_written <= 0) {
+      if ((bytes_written < 0) && (errno == EAGAIN || errno == EINTR || errno == EWOULDBLOCK)) {
+        // Try again after the next poll
+      } else if (bytes_written <= 0) {
         should_close_stdin = true;
       } else {
         stdin_offset += bytes_written;
